@@ -57,7 +57,7 @@ type verifGhost struct {
 func (g *verifGhost) sampleFn(ctx context.Context, h *header.ExtendedHeader) error {
 	g.calls++
 	outcomes := 2 // quick: ok | error; thorough adds outside-window
-	if nd.Thorough() {
+	if nd.Thorough() && !verifLite {
 		outcomes = 3
 	}
 	switch nd.Choice(outcomes, "outcome") {
@@ -89,7 +89,7 @@ func (g *verifGhost) covered(cp checkpoint, h uint64) bool {
 
 func verifParams(limit int) Parameters {
 	rng := uint64(2) // quick: fixed sampling range 2; thorough: 1..2
-	if nd.Thorough() {
+	if nd.Thorough() && !verifLite {
 		rng = uint64(1 + nd.Choice(2, "range"))
 	}
 	return Parameters{
@@ -117,11 +117,16 @@ func VerifH_C04_CheckpointCoversEverything() {
 //
 //verif:opts nodeadlock preempt=1 threads=8 maxwall=1500 cover=checkpointed,newhead
 func VerifH_C04_CheckpointCoversEverythingParallel() {
-	// thorough: every history of two events, three sampling outcomes, sampling
-	// range 1..2 (see verifCheckpointScenario); a second starting head on top
-	// of that exceeded the path budget and is not part of the registered tier
+	// thorough: every history of two events (quick: new head, then checkpoint).
+	// Three sampling outcomes, sampling range 1..2 or a second starting head on
+	// top of that did not complete (> 430 000 paths in 70 min) and are not part
+	// of the registered thorough tier for limit 2
+	verifLite = true
 	verifCheckpointScenario(2, 1)
 }
+
+// verifLite keeps the outcome / range widening of the thorough tier out of a scenario
+var verifLite bool
 
 // Slow sampling: every sample blocks until the checkpoint was taken, so all
 // worker slots (catch-up and recent) stay busy while 2..3 consecutive new
